@@ -13,6 +13,9 @@ CLAIMED = {
  "C17": ("constant propagation through the WHERE builder + exhaustive enumeration of order types; SQL column-set agreement; constant-offset domain along def-use chains",
          "Static: the interval predicate text the code assembles is extracted by constant propagation, parsed, and compared with half-open overlap / containment on every weak ordering of the integers involved (exhaustive), for every kind of accompanying condition (also decides that the assembled WHERE is well formed); every SQL builder takes its WHERE from that one function with the flags forwarded; spans are never written without start/stop; GFF and GenBank coordinates reach the store with net offsets (-1, 0). Equality with a linear scan over arbitrary record sets, and union/copy/pickle multiset preservation, are not decided.",
          "Trusts python ast, the mini constant propagator (anything it cannot fold is reported unresolved), SQLite integer comparison semantics; features and windows are assumed non-empty."),
+ "C19": ("typestate over the extracted file-system effect sequence of the commit function; post-dominance with exceptional edges on a statement CFG; who-may-open rule; dominance of the resume skip",
+         "Static: every kill point of atomic_write's commit is a prefix of its extracted effect sequence, and after each prefix the destination is old or new (never absent); no writer's exception handler deletes the destination; every atomic_write is released on all paths including exceptional ones, and __exit__ commits only on success and cleans up on failure; writers never open the destination directly; apply_to's skip of completed inputs dominates scheduling. Not decided: behaviour of the OS, the zip commit, that a resumed run ends with an identical store.",
+         "Trusts python ast, the CFG construction (exception edge from every statement containing a call), POSIX atomic rename/replace."),
 }
 
 NOT_APPLICABLE = {
